@@ -95,6 +95,7 @@ def conds(tier):
     out = []
     out.append(core.shape_cond("order", P, [3, 4, 5, 13, 17, 6, 7, 12] if q else list(range(20)),
                                fam.OK_MENU, 3 if q else 4, budget=200 if q else 900))
+    out.append(core.seq_cond("seq", P, 3, 2))
     out.append(Cond("dag", core.mk_dag(P), core.DAG_PARAMS, pin=3, budget=120, family="F-DAG",
                     encodes=core.ENC_SCHED))
     out.append(Cond("tree", core.mk_tree(P, 3, 2, 2), core.tree_params(3, 2, 2), pin=3, budget=120,
@@ -109,6 +110,8 @@ def conds(tier):
                     note="chain of 1500 awaiting tasks (beyond the default recursion limit)"))
     out.append(Cond("deepP1100", mk_deep(1100), DP, pin=0, builds=("P",), budget=200, per_path=120,
                     family="F-DEEP", encodes=core.ENC_SCHED, extra_pre=["not two"]))
+    out.append(core.cancel_cond("cancel", P))
+    out.append(core.dagsync_cond("dagsync", P))
     if not q:
         out.append(Cond("deep20000", mk_deep(20000), DP, pin=0, builds=("C", "P"), budget=900, per_path=400,
                         family="F-DEEP", encodes=core.ENC_SCHED, extra_pre=["not two"]))
